@@ -216,6 +216,12 @@ def make_evo(arr, mode="se3", stamped=True, meta=None, flavour="array64"):
             PoseTrajectory3D = type("UserTrajectory", (_tr.PoseTrajectory3D, ), {})
             PosePath3D = type("UserPath", (_tr.PosePath3D, ), {})
     flavour = flavour.split("+")[0]
+    if flavour == "loaded":
+        obj = _loaded(arr, mode, stamped)
+        if obj is not None:
+            if meta is not None:
+                obj.meta.update(meta)  # (whatever the reader recorded stays)
+            return obj
     if mode == "se3":
         poses = [rm.se3(R, p) for R, p in zip(arr["R"], arr["p"])]
         if flavour == "intmat" and all_integer(arr["p"]) and all_integer(arr["R"]):
@@ -247,6 +253,50 @@ def make_evo(arr, mode="se3", stamped=True, meta=None, flavour="array64"):
     return PosePath3D(positions_xyz=p, orientations_quat_wxyz=q, meta=meta)
 
 
+_LOADED_SEQ = [0]
+
+
+def _loaded(arr, mode, stamped):
+    """
+    The object as evo's own readers build it from a file holding exactly these numbers (17
+    significant digits): TUM for stamped position + quaternion storage, KITTI for unstamped matrix
+    storage; read from a path, a pathlib.Path, an open file handle or a StringIO.  None when the
+    combination has no file format.
+    """
+    import io
+    import os
+    import tempfile
+    from pathlib import Path
+    from evo.tools import file_interface as fi
+    if len(arr["p"]) == 0:
+        return None
+    if mode == "xyzq" and stamped:
+        q = np.array(arr["q"], dtype=float) if "q" in arr else quats_of(arr["R"])
+        text, reader = rm.write_tum_text(np.array(arr["t"], dtype=float), np.array(arr["p"], dtype=float), q), \
+            fi.read_tum_trajectory_file
+    elif mode == "se3" and not stamped:
+        text, reader = rm.write_kitti_text(np.array(arr["p"], dtype=float), np.array(arr["R"], dtype=float)), \
+            fi.read_kitti_poses_file
+    else:
+        return None
+    _LOADED_SEQ[0] += 1
+    how = _LOADED_SEQ[0] % 4
+    if how == 3:
+        return reader(io.StringIO(text))
+    fd, path = tempfile.mkstemp(suffix=".txt", dir=os.environ.get("VMON_WORK") or None)
+    try:
+        with os.fdopen(fd, "w") as fh:
+            fh.write(text)
+        if how == 0:
+            return reader(path)
+        if how == 1:
+            return reader(Path(path))
+        with open(path) as fh:
+            return reader(fh)
+    finally:
+        os.remove(path)
+
+
 def all_integer(a):
     a = np.asarray(a, dtype=float)
     if np.any(np.signbit(a) & (a == 0)):
@@ -256,7 +306,8 @@ def all_integer(a):
 
 def rand_flavour(rng):
     u = rng.random()
-    base = "lists" if u < .15 else "int" if u < .3 else "stacked" if u < .45 else "shared" if u < .6 else "array64"
+    base = "lists" if u < .15 else "int" if u < .3 else "stacked" if u < .45 else "shared" if u < .6 else \
+        "loaded" if u < .7 else "array64"
     return base + ("+sub" if rng.random() < .1 else "")
 
 
